@@ -250,7 +250,11 @@ Fixpoint m_eval (e : expr) : eres :=
   | EUn op e1 =>
       match m_eval e1 with
       | Ok k cv =>
-          let folded := match cv with Some a => Some (const_unop op k a) | None => None end in
+          (* go/constant.UnaryOp of an unknown value is unknown: it propagates *)
+          let folded := match cv with
+                        | Some a => Some (if is_unknown cv then CV unknown_val else const_unop op k a)
+                        | None => None
+                        end in
           match folded with
           | Some CPanic => Rejected      (* go/constant panics with a message: an unstructured report *)
           | _ =>
@@ -313,7 +317,9 @@ Fixpoint m_eval (e : expr) : eres :=
           match eq_accept k1 k2 c1 c2 with
           | C05.Model.Ok true =>
               match c1, c2 with
-              | Some a, Some b => match const_compare op a b with CV c => Ok KUntypedBool (Some c) | CPanic => Rejected end
+              | Some a, Some b =>
+                  if negb (N.eqb (cclass a) (cclass b)) then Ok KUntypedBool None   (* operands of different classes are not folded *)
+                  else match const_compare op a b with CV c => Ok KUntypedBool (Some c) | CPanic => Rejected end
               | _, _ => Ok KUntypedBool None
               end
           | C05.Model.Ok false => Rejected
